@@ -211,7 +211,7 @@ static bool bulk_input(const Bulk &b, size_t k, Syntax sy, Bytes &S, bool handwr
     // tree; the depth is bounded by the stack guard, so it is a - large - constant factor): observed, documented (DESIGN 15.5), not judged
     if(sy == SY_UPER && strstr(b.name, "deep-payload")) return false;
     if(!b.xer) {                       // hand-written bytes for one syntax
-        if(!b.raw || (b.raw_syntax == 1 && sy != SY_DER)) return false;       // the grid's "DER" column carries the BER-only inputs
+        if(!b.raw || (b.raw_syntax == 1 && sy != SY_DER) || (b.raw_syntax == 4 && sy != SY_XER)) return false;       // the grid's "DER" column carries the BER-only inputs
         S = b.raw(k); return true;
     }
     std::string x = b.xer(k);
